@@ -52,6 +52,9 @@ type c20Phase struct {
 	// LateDial: the held dial does not notice a cancellation any more, it completes with a good connection
 	DialerDies bool `json:"dialer_dies,omitempty"`
 	LateDial   bool `json:"late_dial,omitempty"`
+	// MetaSlowMS > 0: while this phase's requests are issued hbase:meta does not answer for that long (longer
+	// than the lookup time-out): lookups are given up and repeated - on a connection that is perfectly healthy
+	MetaSlowMS int `json:"meta_slow_ms,omitempty"`
 }
 
 type c20Case struct {
@@ -79,14 +82,22 @@ func c20Run(c c20Case) Outcome {
 func c20RunInBubble(c c20Case) (out Outcome) {
 	cl := c.Layout.build()
 	addrs := c.Layout.addrs()
+	readTimeout := 2 * time.Second
+	for _, ph := range c.Phases {
+		if ph.MetaSlowMS > 0 {
+			// (a slow answer must not look like a silent server to the connection)
+			readTimeout = 5 * time.Minute
+		}
+	}
 	client := newSimClient(cl, gohbase.RpcQueueSize(c.Queue), gohbase.FlushInterval(time.Duration(c.FlushMS)*time.Millisecond),
-		gohbase.RegionReadTimeout(2*time.Second))
+		gohbase.RegionReadTimeout(readTimeout))
 	defer func() {
 		client.Close()
 		drainClient()
 		cl.Stop()
 	}()
 	anyFault := false
+	slowLookups := false
 	layoutChanged := false
 	busyRegions := false
 	concurrentFirst := false
@@ -113,6 +124,22 @@ func c20RunInBubble(c c20Case) (out Outcome) {
 		}
 		if anyFault && len(ph.Uses) > 0 {
 			reuseAfterFailure = true
+		}
+		if ph.MetaSlowMS > 0 {
+			cl.Lock()
+			cl.MetaHold = true
+			m0 := cl.MetaScans
+			cl.Unlock()
+			hold := time.Duration(ph.MetaSlowMS) * time.Millisecond
+			go func() {
+				time.Sleep(hold)
+				cl.Lock()
+				cl.MetaHold = false
+				if cl.MetaScans > m0 {
+					slowLookups = true
+				}
+				cl.Unlock()
+			}()
 		}
 		var wg sync.WaitGroup
 		var mu sync.Mutex
@@ -174,7 +201,7 @@ func c20RunInBubble(c c20Case) (out Outcome) {
 					break
 				}
 			}
-			time.Sleep(2500 * time.Millisecond)
+			time.Sleep(readTimeout + 500*time.Millisecond)
 			cl.SetServer(addr, func(s *sim.ServerState) { s.Silent = false })
 		case "fatal":
 			cl.SetServer(addr, func(s *sim.ServerState) { s.Fatal = sim.RSStopped })
@@ -225,6 +252,11 @@ func c20RunInBubble(c c20Case) (out Outcome) {
 	if layoutChanged {
 		out.Labels = append(out.Labels, "layout_changed")
 	}
+	cl.Lock()
+	if slowLookups {
+		out.Labels = append(out.Labels, "lookups_timed_out_on_a_healthy_connection")
+	}
+	cl.Unlock()
 	if !anyFault {
 		for addr, n := range okDials {
 			if n > 1 {
@@ -275,6 +307,9 @@ func c20Gen(t *rapid.T) c20Case {
 		}
 		ph.Fault = rapid.SampledFrom([]string{"", "", "", "reset", "silent", "fatal"}).Draw(t, "fault")
 		ph.FaultServer = rapid.IntRange(0, 3).Draw(t, "faultserver")
+		if rapid.IntRange(0, 5).Draw(t, "metaslow") == 0 {
+			ph.MetaSlowMS = rapid.SampledFrom([]int{30500, 31000, 45000, 70000}).Draw(t, "metaslowms")
+		}
 		ph.LateBatch = rapid.IntRange(0, 3).Draw(t, "latebatch") == 0
 		ph.DuringDial = rapid.IntRange(0, 3).Draw(t, "duringdial") == 0
 		if ph.DuringDial {
